@@ -657,7 +657,7 @@ func (j *judge) judgeReaderBasic(ri int) {
 			if cons > len(stored) {
 				cons = len(stored)
 			}
-			if rs.Srcs[r.Src].Bufio > 0 {
+			if rs.Srcs[r.Src].Bufio > 0 || rs.Srcs[r.Src].Seeker && src.Seeks > 0 {
 				// a buffered source reads ahead: the consumed count says
 				// nothing; judge against the frame the reference sees
 				cons = len(stored)
